@@ -130,14 +130,18 @@ def padLevels (tt : Nat) : Nat → List (List (Bytes × Bytes)) → Tape → Exc
     let (more, t3) ← padLevels tt (i + 1) rest t2
     pure ((L ++ fs) :: more, t3)
 
-def setup (K : Bytes) (db : DB) (t : Tape) : Except Err (List Table × Tape) := do
+/-- the padded level lists of `_Enc`, before they are turned into hash tables -/
+def setupLists (K : Bytes) (db : DB) (t : Tape) : Except Err (List (List (Bytes × Bytes)) × Tape) := do
   let N := db.total
   if N = 0 then throw .valueError                       -- math.log2(0)
   let tt := clog2 N
   let (pdb, t1) ← padLoop cfg.idSize.toNat (2 ^ tt) (2 ^ tt + 1) db N t
   let (Ls, t2) ← encDb cfg lv K pdb (List.replicate (tt + 1) []) t1
-  let (Ls', t3) ← padLevels cfg lv tt 0 Ls t2
-  pure (Ls'.map buildTable, t3)
+  padLevels cfg lv tt 0 Ls t2
+
+def setup (K : Bytes) (db : DB) (t : Tape) : Except Err (List Table × Tape) := do
+  let (TL, t') ← setupLists cfg lv K db t
+  pure (TL.map buildTable, t')
 
 /-- `_Search`: levels from the top down -/
 def searchLevels (K0 K1 : Bytes) (HT : List Table) : Nat → Except Err (List Bytes)
@@ -155,6 +159,33 @@ def searchLevels (K0 K1 : Bytes) (HT : List Table) : Nat → Except Err (List By
 
 def search (HT : List Table) (tk : Bytes × Bytes) : Except Err (List Bytes) :=
   searchLevels cfg lv tk.1 tk.2 HT HT.length
+
+/-! the hypotheses of the CT14 theorems as a computation on this run -/
+
+def nodupL (l : List Bytes) : Bool :=
+  match l with
+  | [] => true
+  | a :: as => !as.contains a && nodupL as
+
+def hypsB (K : Bytes) (db : DB) (t : Tape) (absent : List Bytes) : Bool :=
+  (t.all fun d => match d with | .bytes b => !(b.length == 16 && allZero b) | _ => true) &&
+  (match padLoop cfg.idSize.toNat (2 ^ clog2 db.total) (2 ^ clog2 db.total + 1) db db.total t with
+   | .ok (pdb, _) => db.all (fun p => pdb.contains p)
+   | .error _ => false) &&
+  (match setupLists cfg lv K db t with
+   | .ok (TL, _) =>
+     TL.all (fun l => nodupL (l.map (·.1))) &&
+     (db.map (·.1) ++ absent).all (fun w =>
+       let n := if absent.contains w then 0 else (db.lookup w).getD [] |>.length
+       match token cfg lv K w with
+       | .ok (Kw0, _) => (List.range TL.length).all (fun j =>
+           if n % 2 ^ (j + 1) < 2 ^ j then
+             match cfg.prfFPrime.call lv.hmac Kw0 (natToBytesMin j) with
+             | .ok l => !((TL[j]?).getD [] |>.map (·.1)).contains l
+             | .error _ => false
+           else true)
+       | .error _ => false)
+   | .error _ => false)
 
 end CT14
 
